@@ -35,10 +35,10 @@ def _fallback_arm(closure_toks, scrutinee, what):
     arms = split_arms(closure_toks[o + 1:c])
     if not arms:
         raise Undecided(f"{FILE}: no arms in the {what} closure")
-    pat, body = arms[-1]
-    if len(pat) != 1 or pat[0].startswith("Rule"):
-        return None, None         # no catch-all arm: the match is exhaustive over Rule by construction (rustc checks it)
-    return pat[0], body
+    for pat, body in arms:
+        if len(pat) == 1 and not pat[0].startswith("Rule"):
+            return pat[0], body   # the FIRST catch-all arm is the one that takes every remaining rule
+    return None, None             # no catch-all arm: the match is exhaustive over Rule by construction (rustc checks it)
 
 
 def build(repo):
